@@ -23,8 +23,15 @@ type Known struct {
 }
 
 func (k Known) Matches(class, reason string) bool {
-	if k.Class == "" || k.Class != class {
+	if k.Class == "" {
 		return false // entries without a class are witness-only: they never attribute campaign violations
+	}
+	if strings.HasSuffix(k.Class, "*") {
+		if !strings.HasPrefix(class, strings.TrimSuffix(k.Class, "*")) {
+			return false
+		}
+	} else if k.Class != class {
+		return false
 	}
 	if k.Match != "" && !strings.Contains(reason, k.Match) {
 		return false
@@ -70,7 +77,7 @@ func LoadKnown(path, prop string) []Known {
 			case "finding":
 				k.ID = kv[1]
 			case "class":
-				k.Class = kv[1]
+				k.Class = v
 			case "match":
 				k.Match = v
 			}
